@@ -3,6 +3,7 @@
 use crate::util::*;
 use serde_json::{json, Value};
 use surf_n_term::surface::ViewBounds;
+use surf_n_term::surface::{SurfaceMutView, SurfaceView};
 use surf_n_term::{Position, Size, Surface, SurfaceMut, SurfaceOwned};
 
 #[derive(Clone, Debug)]
@@ -300,12 +301,50 @@ fn kind_of(s: &str) -> Kind {
     }
 }
 
+/// the trailing view steps taken one after the other through Surface::view (a SurfaceView of a SurfaceView ...)
+fn with_views<S: Surface<Item = u64>, R>(s: &S, steps: &[(Sel, Sel)], f: &dyn Fn(&SurfaceView<'_, u64>) -> R) -> R {
+    let (r, c) = steps[0].clone();
+    let v = s.view(r, c);
+    if steps.len() == 1 {
+        f(&v)
+    } else {
+        with_views(&v, &steps[1..], f)
+    }
+}
+
+/// the same through SurfaceMut::view_mut (a SurfaceMutView of a SurfaceMutView ...)
+fn with_views_mut<S: SurfaceMut<Item = u64>, R>(s: &mut S, steps: &[(Sel, Sel)], f: &dyn Fn(&mut SurfaceMutView<'_, u64>) -> R) -> R {
+    let (r, c) = steps[0].clone();
+    let mut v = s.view_mut(r, c);
+    if steps.len() == 1 {
+        f(&mut v)
+    } else {
+        with_views_mut(&mut v, &steps[1..], f)
+    }
+}
+
+/// number of trailing view steps (at most 3) that a borrowed kind takes through view / view_mut
+fn borrowed_steps(kind: Kind, ops: &[Op]) -> usize {
+    if !matches!(kind, Kind::View | Kind::ViewMut) {
+        return 0;
+    }
+    ops.iter().rev().take(3).take_while(|o| matches!(o, Op::View(..))).count()
+}
+
+/// marks an observation during which the implementation panicked where no panic is an expected value
+const PANICKED: u64 = u64::MAX;
+
 fn observe(h: usize, w: usize, ops: &[Op], borrowed: bool, kind: Kind, ir: usize, ic: usize, items: &[u64], nk: usize) -> Obs {
-    // the last step, if it is a view and the kind wants to take it differently
-    let (prefix, last): (&[Op], Option<(Sel, Sel)>) = match (kind, ops.last()) {
-        (Kind::View, Some(Op::View(r, c))) | (Kind::ViewMut, Some(Op::View(r, c))) => (&ops[..ops.len() - 1], Some((r.clone(), c.clone()))),
-        _ => (ops, None),
-    };
+    // the trailing view steps, if the kind wants to take them through borrowed views
+    let nb = borrowed_steps(kind, ops);
+    let prefix = &ops[..ops.len() - nb];
+    let steps: Vec<(Sel, Sel)> = ops[ops.len() - nb..]
+        .iter()
+        .map(|o| match o {
+            Op::View(r, c) => (r.clone(), c.clone()),
+            Op::T => unreachable!(),
+        })
+        .collect();
     // every observation starts from a fresh surface; `borrowed` selects &mut SurfaceOwned as the base
     let ro = {
         let mut owned = fresh(h, w);
@@ -321,11 +360,11 @@ fn observe(h: usize, w: usize, ops: &[Op], borrowed: bool, kind: Kind, ir: usize
             _ => {
                 let base: Dyn = if borrowed { Box::new(&mut owned) } else { Box::new(owned.clone()) };
                 let mut cur = build(base, prefix);
-                match (kind, &last) {
-                    (Kind::View, Some((r, c))) => read_obs(&cur.view(r.clone(), c.clone()), nk),
-                    (Kind::ViewMut, Some((r, c))) => read_obs(&cur.view_mut(r.clone(), c.clone()), nk),
-                    (Kind::AsRef, _) | (Kind::View, None) => read_obs(&Surface::as_ref(&cur), nk),
-                    (Kind::AsMut, _) | (Kind::ViewMut, None) => read_obs(&SurfaceMut::as_mut(&mut cur), nk),
+                match kind {
+                    Kind::View if nb > 0 => with_views(&cur, &steps, &|v| read_obs(v, nk)),
+                    Kind::ViewMut if nb > 0 => with_views_mut(&mut cur, &steps, &|v| read_obs(v, nk)),
+                    Kind::AsRef | Kind::View => read_obs(&Surface::as_ref(&cur), nk),
+                    Kind::AsMut | Kind::ViewMut => read_obs(&SurfaceMut::as_mut(&mut cur), nk),
                     _ => read_obs(&cur, nk),
                 }
             }
@@ -336,12 +375,19 @@ fn observe(h: usize, w: usize, ops: &[Op], borrowed: bool, kind: Kind, ir: usize
         catch(std::panic::AssertUnwindSafe(|| {
             let mut owned = fresh(h, w);
             let base: Dyn = if borrowed { Box::new(&mut owned) } else { Box::new(owned.clone()) };
-            let mut cur = build(base, prefix);
-            match (kind, &last) {
-                (Kind::ViewMut, Some((r, c))) => mut_obs(&mut cur.view_mut(r.clone(), c.clone()), m, ir, ic, items),
-                (Kind::View, Some((r, c))) => mut_obs(&mut cur.view_owned(r.clone(), c.clone()), m, ir, ic, items),
-                (Kind::AsMut, _) | (Kind::ViewMut, None) => mut_obs(&mut SurfaceMut::as_mut(&mut cur), m, ir, ic, items),
-                _ => mut_obs(&mut cur, m, ir, ic, items),
+            match kind {
+                Kind::ViewMut if nb > 0 => {
+                    let mut cur = build(base, prefix);
+                    with_views_mut(&mut cur, &steps, &|v| mut_obs(v, m, ir, ic, items))
+                }
+                Kind::AsMut | Kind::ViewMut => {
+                    let mut cur = build(base, ops);
+                    mut_obs(&mut SurfaceMut::as_mut(&mut cur), m, ir, ic, items)
+                }
+                _ => {
+                    let mut cur = build(base, ops);
+                    mut_obs(&mut cur, m, ir, ic, items)
+                }
             }
         }))
     };
@@ -350,13 +396,13 @@ fn observe(h: usize, w: usize, ops: &[Op], borrowed: bool, kind: Kind, ir: usize
         empty: ro.empty,
         it: ro.it,
         gets: ro.gets,
-        muts: run_mut(Mutn::Ptrs).unwrap_or_default(),
+        muts: run_mut(Mutn::Ptrs).unwrap_or_else(|| vec![PANICKED]),
         fil: flat(run_mut(Mutn::Fill)),
         filw: flat(run_mut(Mutn::FillWith)),
         ins: flat(run_mut(Mutn::Insert)),
         mp: { let mut v = ro.mp; v.insert(0, 1); v },
         clr: flat(run_mut(Mutn::Clear)),
-        getm: run_mut(Mutn::GetMut).unwrap_or_default(),
+        getm: run_mut(Mutn::GetMut).unwrap_or_else(|| vec![PANICKED]),
         setv: flat(run_mut(Mutn::Set)),
         nthv: ro.nthv,
         wpos: ro.wpos,
@@ -409,6 +455,10 @@ pub fn run(input: &Value) -> Case {
                     format!("area={}", if area == 0 { "0" } else if area < 4 { "1-3" } else { "4+" }),
                     format!("borrowed={}", borrowed),
                     format!("kind={:?}", kind),
+                    format!("borrowed_steps={}", borrowed_steps(kind, &ops)),
+                    format!("insert={}", if o.ins == vec![0] { "panic" } else if ir as u128 * (o.shape[2] as u128) + ic as u128 >= area as u128 { "beyond-window" } else { "inside" }),
+                    format!("set={}", if o.setv == vec![0] { "outside(panic)" } else { "inside" }),
+                    format!("huge-position={}", ir > (1 << 32) || ic > (1 << 32)),
                 ],
             )
         }
@@ -448,8 +498,15 @@ pub fn generate(rng: &mut Rng, n: usize, _tier: &str) -> Vec<Value> {
                 ops.push(json!("t"));
                 std::mem::swap(&mut ch, &mut cw);
             } else {
-                let r = Sel::random(rng, ch);
-                let c = Sel::random(rng, cw);
+                // a selector that empties the window ends all variety below it: keep only one in four of those
+                let mut r = Sel::random(rng, ch);
+                let mut c = Sel::random(rng, cw);
+                for _ in 0..3 {
+                    if (r.clone().view_bounds_ref(ch) == 0 || c.clone().view_bounds_ref(cw) == 0) && ch > 0 && cw > 0 && !rng.chance(1, 4) {
+                        r = Sel::random(rng, ch);
+                        c = Sel::random(rng, cw);
+                    }
+                }
                 // track the dims so that later selectors stay relevant
                 ch = r.clone().view_bounds_ref(ch);
                 cw = c.clone().view_bounds_ref(cw);
